@@ -80,7 +80,7 @@ func c16Record(n int64) {
 	cov.NonTrivial("c16", b[:])
 }
 
-const c16Rule = "C16: every integer of a contiguous range around zero, the boundaries of int8..int64 (±2), and rapid Int64 draws, each through Language(N).String() against the declared identifier / \"Language(N)\"; non-trivial = a distinct N other than the ten values the suite's table lists (0..8 and 10000)"
+const c16Rule = "C16: every integer of a contiguous range around zero, the boundaries of int8..int64 (\u00b12), and rapid Int64 draws, each through Language(N).String() against the declared identifier / \"Language(N)\"; non-trivial = a distinct N other than the ten values the suite's table lists (0..8 and 10000)"
 
 func TestC16_Range(t *testing.T) {
 	cov.Rule(c16Rule)
